@@ -7,7 +7,8 @@ namespace Nstd.Server.C14
 open Nstd.Server.C13 (Outcome SendRes sendOS)
 
 def InvF (s : St) : Prop :=
-  ∀ i c reg, s.clients i = some c → lookup s.sockets i = some reg → reg = clientFlags c.suspended c.backlog
+  ∀ i c reg, s.clients i = some c → lookup s.sockets i = some reg → reg.a = false → reg.c = false →
+    reg = clientFlags c.suspended c.backlog
 
 theorem invF_init : InvF init := by
   intro i c reg hc; simp [init] at hc
@@ -47,37 +48,48 @@ theorem pollRemove_lookup (s : St) (i : Id) :
 theorem invF_pollSet (s : St) (i : Id) (ev : Flags) (h : InvF s)
     (hc : ∀ c, s.clients i = some c → ev = clientFlags c.suspended c.backlog) : InvF (pollSet s i ev) := by
   obtain ⟨a, b, c⟩ := pollSet_lookup s i ev
-  intro j cl reg hcl hl
+  intro j cl reg hcl hl ha hcf
   rw [a] at hcl
   by_cases hji : j = i
   · subst hji; rw [b] at hl; injection hl with hl; subst hl; exact hc cl hcl
-  · rw [c j hji] at hl; exact h j cl reg hcl hl
+  · rw [c j hji] at hl; exact h j cl reg hcl hl ha hcf
+
+/-- registering a socket with an accept / connect flag does not concern `InvF` -/
+theorem invF_pollSet_other (s : St) (i : Id) (ev : Flags) (h : InvF s) (hev : ev.a = true ∨ ev.c = true) :
+    InvF (pollSet s i ev) := by
+  obtain ⟨a, b, c⟩ := pollSet_lookup s i ev
+  intro j cl reg hcl hl ha hcf
+  rw [a] at hcl
+  by_cases hji : j = i
+  · subst hji; rw [b] at hl; injection hl with hl; subst hl
+    rcases hev with h' | h' <;> simp [h'] at ha hcf
+  · rw [c j hji] at hl; exact h j cl reg hcl hl ha hcf
 
 theorem invF_pollRemove (s : St) (i : Id) (h : InvF s) : InvF (pollRemove s i) := by
   obtain ⟨a, b, c⟩ := pollRemove_lookup s i
-  intro j cl reg hcl hl
+  intro j cl reg hcl hl ha hcf
   rw [a] at hcl
   by_cases hji : j = i
   · subst hji; rw [b] at hl; simp at hl
-  · rw [c j hji] at hl; exact h j cl reg hcl hl
+  · rw [c j hji] at hl; exact h j cl reg hcl hl ha hcf
 
 /-- replace the record of client `i`, keeping what the registration depends on -/
 theorem invF_updClient (s : St) (i : Id) (c c' : ClientS) (h : InvF s) (hc : s.clients i = some c)
     (hf : clientFlags c'.suspended c'.backlog = clientFlags c.suspended c.backlog) :
     InvF { s with clients := upd s.clients i (some c') } := by
-  intro j cl reg hcl hl
+  intro j cl reg hcl hl ha hcf
   simp only [upd] at hcl
   by_cases hji : j = i
   · subst hji
     simp only [if_true] at hcl; injection hcl with hcl; subst hcl
-    rw [hf]; exact h j c reg hc hl
-  · simp only [hji, if_false] at hcl; exact h j cl reg hcl hl
+    rw [hf]; exact h j c reg hc hl ha hcf
+  · simp only [hji, if_false] at hcl; exact h j cl reg hcl hl ha hcf
 
 /-- replace the record of client `i` and re-register it with the matching flags -/
 theorem invF_updSet (s : St) (i : Id) (c' : ClientS) (h : InvF s) :
     InvF (pollSet { s with clients := upd s.clients i (some c') } i (clientFlags c'.suspended c'.backlog)) := by
   obtain ⟨a, b, c⟩ := pollSet_lookup { s with clients := upd s.clients i (some c') } i (clientFlags c'.suspended c'.backlog)
-  intro j cl reg hcl hl
+  intro j cl reg hcl hl ha hcf
   rw [a] at hcl
   simp only [upd] at hcl
   by_cases hji : j = i
@@ -86,22 +98,22 @@ theorem invF_updSet (s : St) (i : Id) (c' : ClientS) (h : InvF s) :
     rw [b] at hl; injection hl with hl; exact hl.symm
   · simp only [hji, if_false] at hcl
     rw [c j hji] at hl
-    exact h j cl reg hcl hl
+    exact h j cl reg hcl hl ha hcf
 
 /-- a table change that leaves clients and sockets alone -/
 theorem invF_frame (s s' : St) (h : InvF s) (h1 : s'.clients = s.clients) (h2 : s'.sockets = s.sockets) : InvF s' := by
-  intro j cl reg hcl hl; rw [h1] at hcl; rw [h2] at hl; exact h j cl reg hcl hl
+  intro j cl reg hcl hl ha hcf; rw [h1] at hcl; rw [h2] at hl; exact h j cl reg hcl hl ha hcf
 
 theorem invF_deleteClient (s : St) (i : Id) (h : InvF s) : InvF (deleteClient s i) := by
   unfold deleteClient
   dsimp only
   have h1 := invF_pollRemove { s with closing := s.closing.filter (· ≠ i) } i (invF_frame s _ h rfl rfl)
   generalize pollRemove { s with closing := s.closing.filter (· ≠ i) } i = s2 at h1 ⊢
-  intro j cl reg hcl hl
+  intro j cl reg hcl hl ha hcf
   simp only [markGone, upd] at hcl hl
   by_cases hji : j = i
   · simp [hji] at hcl
-  · simp only [hji, if_false] at hcl; exact h1 j cl reg hcl hl
+  · simp only [hji, if_false] at hcl; exact h1 j cl reg hcl hl ha hcf
 
 theorem invF_rmClient (s : St) (i : Id) (h : InvF s) : InvF (rmClient s i) := by
   unfold rmClient
@@ -176,6 +188,22 @@ theorem invF_write (s : St) (i : Id) (n : Nat) (o : Outcome) (h : InvF s) : InvF
       rw [h1, h2]
   · exact h
 
+theorem invF_mkPair (s : St) (i : Id) (h : InvF s) : InvF (mkPair s i) := by
+  unfold mkPair; dsimp only; split
+  · exact invF_updSet { s with used := upd s.used i true, order := s.order ++ [i] } i { hasCb := true }
+      (invF_frame s _ h rfl rfl)
+  · exact h
+
+theorem invF_mkListener (s : St) (i : Id) (h : InvF s) : InvF (mkListener s i) := by
+  unfold mkListener; dsimp only; split
+  · exact invF_pollSet_other { s with listeners := _, used := _, order := _ } i _ (invF_frame s _ h rfl rfl) (Or.inl rfl)
+  · exact h
+
+theorem invF_mkEst (s : St) (i : Id) (h : InvF s) : InvF (mkEst s i) := by
+  unfold mkEst; dsimp only; split
+  · exact invF_pollSet_other { s with ests := _, used := _, order := _ } i _ (invF_frame s _ h rfl rfl) (Or.inr rfl)
+  · exact h
+
 theorem invF_applyAct (s : St) (nc : Option Id) (a : Act) (h : InvF s) : InvF (applyAct s nc a) := by
   cases a <;> simp only [applyAct]
   case mkTimer i iv => unfold mkTimer; dsimp only; split <;> first | exact invF_frame s _ h rfl rfl | exact h
@@ -190,6 +218,9 @@ theorem invF_applyAct (s : St) (nc : Option Id) (a : Act) (h : InvF s) : InvF (a
   case resume i => exact invF_resume s i h
   case read i => exact invF_read s i h
   case write i n o => exact invF_write s i n o h
+  case mkPair i => exact invF_mkPair s i h
+  case mkListener i => exact invF_mkListener s i h
+  case mkEst i => exact invF_mkEst s i h
 
 theorem invF_runActs (s : St) (nc : Option Id) (acts : List Act) (h : InvF s) : InvF (runActs s nc acts) := by
   induction acts generalizing s with
@@ -204,14 +235,14 @@ theorem invF_callback (s : St) (i : Id) (nc : Option Id) (h : InvF s) : InvF (ca
 theorem invF_updRemove (s : St) (i : Id) (c' : ClientS) (h : InvF s) :
     InvF (pollRemove { s with clients := upd s.clients i (some c') } i) := by
   obtain ⟨a, b, c⟩ := pollRemove_lookup { s with clients := upd s.clients i (some c') } i
-  intro j cl reg hcl hl
+  intro j cl reg hcl hl ha hcf
   rw [a] at hcl
   simp only [upd] at hcl
   by_cases hji : j = i
   · subst hji; rw [b] at hl; simp at hl
   · simp only [hji, if_false] at hcl
     rw [c j hji] at hl
-    exact h j cl reg hcl hl
+    exact h j cl reg hcl hl ha hcf
 
 theorem invF_writeReady (s : St) (i : Id) (o : Outcome) (h : InvF s) : InvF (writeReady s i o).1 := by
   unfold writeReady
@@ -360,27 +391,9 @@ theorem invF_move (s : St) (m : Move) (hu : InvU s) (h : InvF s) : InvF (move s 
     case dial i => split <;> first | exact invF_frame s _ h rfl rfl | exact h
     case advance dt => exact invF_frame s _ h rfl rfl
     case connFail i => split <;> first | exact invF_frame s _ h rfl rfl | exact h
-  case mkPair i =>
-    unfold mkPair; dsimp only; split
-    · exact invF_updSet { s with used := upd s.used i true, order := s.order ++ [i] } i { hasCb := true }
-        (invF_frame s _ h rfl rfl)
-    · exact h
-  case mkListener i =>
-    unfold mkListener; dsimp only; split
-    · rename_i hf
-      refine invF_pollSet { s with listeners := _, used := _, order := _ } i _ (invF_frame s _ h rfl rfl) ?_
-      intro c hc
-      simp only at hc
-      rw [notClient i hf] at hc; simp at hc
-    · exact h
-  case mkEst i =>
-    unfold mkEst; dsimp only; split
-    · rename_i hf
-      refine invF_pollSet { s with ests := _, used := _, order := _ } i _ (invF_frame s _ h rfl rfl) ?_
-      intro c hc
-      simp only at hc
-      rw [notClient i hf] at hc; simp at hc
-    · exact h
+  case mkPair i => exact invF_mkPair s i h
+  case mkListener i => exact invF_mkListener s i h
+  case mkEst i => exact invF_mkEst s i h
   case script i k acts => exact invF_frame s _ h rfl rfl
   case enter => unfold enterRun; split <;> first | exact invF_frame s _ h rfl rfl | exact h
   case intrBegin => split <;> first | exact invF_frame s _ h rfl rfl | exact h
